@@ -174,7 +174,7 @@ func TestC17(t *testing.T) {
 		t.Fatal(err)
 	}
 
-	nHist := hx.N(1, 3)
+	nHist := hx.N(2, 6)
 	nChild := 3
 	if hx.Tier() == "thorough" {
 		nChild = len(variations)
